@@ -308,8 +308,26 @@ func (c *Ctx) defensiveOnCallbackStore(f *ssa.Function, r *ssa.Return) bool {
 					continue
 				}
 				for _, call := range callsIn(ls.Callback) {
-					if cal := call.Common().StaticCallee(); cal != nil && commit[cal] && instrDominates(st, call) {
+					cal := call.Common().StaticCallee()
+					if cal == nil || !commit[cal] {
+						continue
+					}
+					if instrDominates(st, call) {
 						return true
+					}
+					// the section body lives in a helper that commits and hands the item back: the store takes the
+					// helper's result, which is a real item (never the nil constant) on each of its non-failing returns
+					if ex, ok := strip(st.Val).(*ssa.Extract); ok && ex.Tuple == ssa.Value(call.Value()) && call.Value() != nil {
+						nonNil := true
+						rets := c.nonFailingReturns(cal)
+						for _, r := range rets {
+							if ex.Index >= len(r.Results) || isNilConst(returnedValue(r, ex.Index)) {
+								nonNil = false
+							}
+						}
+						if nonNil && len(rets) > 0 {
+							return true
+						}
 					}
 				}
 			}
@@ -601,6 +619,26 @@ func (c *Ctx) nonEmptyChecked(v ssa.Value, at *ssa.Function) bool {
 		}
 		// next enclosing context
 		inner := f
+		if c.F.Callbacks[inner] == nil && inner.Parent() == nil {
+			// a private helper with one call site (the section body moved out of the closure): continue in its caller,
+			// with the checked value expressed there
+			sites := c.callers[inner]
+			if len(sites) != 1 {
+				return false
+			}
+			e := env{}
+			for i, prm := range inner.Params {
+				if i < len(sites[0].Call.Common().Args) {
+					e[prm] = sites[0].Call.Common().Args[i]
+				}
+			}
+			want = c.Prog.canonE(v, e)
+			if rv, ok := resolveEnv(v, e).(ssa.Value); ok {
+				v = rv
+			}
+			f, site = sites[0].Fn, sites[0].Call.Block()
+			continue
+		}
 		if ls := c.F.Callbacks[inner]; ls != nil && inner.Parent() == nil {
 			f, site = ls.Fn, ls.Call.Block() // a named function / bound method used as the lock callback
 			continue
